@@ -23,6 +23,7 @@ import (
 type vfCookieInfo struct {
 	Subject string
 	Proven  int // AuthType* bits really proven in this lineage, for Subject
+	Carried int // level bits the server wrote into the cookie (C01 judges on these; C05 judges Carried against Proven)
 	AuthAt  time.Time
 	Exp     time.Time
 	Kind    string // session | cli
@@ -293,7 +294,7 @@ func (m *vfModel) observeLevel(ctx *vfReqCtx, in *vfIntent, resp *vfResp) {
 		claims = append(claims, in.Claims...)
 	}
 	isLogin := strings.HasPrefix(ctx.req.Path, "/api/v0/login")
-	info := &vfCookieInfo{Subject: sub, Exp: exp, AuthAt: iat, Kind: kind}
+	info := &vfCookieInfo{Subject: sub, Exp: exp, AuthAt: iat, Kind: kind, Carried: level}
 	if isLogin {
 		m.lineages++
 		info.Lineage = m.lineages
